@@ -244,6 +244,9 @@ pub struct ExecCfg {
     /// > 0: bound on the scheduling points a try operation may execute in a row without any
     /// other thread changing shared state in between (C18 for every try call of an execution)
     pub try_quiet_bound: u64,
+    /// > 0: the same kind of bound for the futures entry points (poll, start_send, poll_complete):
+    /// they may spin as long as the configured spin counts allow, but not wait inside the call
+    pub fut_quiet_bound: u64,
     /// when the schedule bytes are used up start again at the first one (long churn runs: the
     /// preemptions do not stop after the first few hundred decisions)
     pub cyclic: bool,
@@ -262,6 +265,7 @@ impl Default for ExecCfg {
             weak_cas_fail: false,
             quarantine: false,
             try_quiet_bound: 0,
+            fut_quiet_bound: 0,
             cyclic: false,
             freeze: None,
         }
@@ -928,6 +932,24 @@ impl Sched {
             if v == me && st.threads[me].steps == k {
                 // never returns normally: the thread is unwound when the execution is torn down
                 return self.block(st, me, Block::Frozen);
+            }
+        }
+        if st.cfg.fut_quiet_bound > 0 {
+            // StartSend, PollComplete, Poll (CallKind codes)
+            let k = st.threads[me].activity.kind;
+            if k == 2 || k == 3 || k == 13 {
+                let foreign = st.changes_total - st.threads[me].own_changes;
+                let th = &mut st.threads[me];
+                if foreign != th.call_seen_foreign {
+                    th.call_seen_foreign = foreign;
+                    th.call_quiet = 0;
+                } else {
+                    th.call_quiet += 1;
+                    if th.call_quiet > st.cfg.fut_quiet_bound {
+                        let b = st.cfg.fut_quiet_bound;
+                        self.abort_here(st, Verdict::TryOpSpins(me, b));
+                    }
+                }
             }
         }
         if st.cfg.try_quiet_bound > 0 {
